@@ -15,6 +15,7 @@ type Config struct {
 	Oracles map[string]bool `json:"oracles"`
 	Faults  map[string]bool `json:"faults,omitempty"`   // enabled fault kinds (informational; the events carry them)
 	HoldPub bool            `json:"hold_pub,omitempty"` // a server's publish waits for the simulator (notification goroutines overtake each other)
+	Yields  bool            `json:"yields,omitempty"`   // the scheduling points inserted into the server copy are seams (C12)
 	Observe bool            `json:"observe,omitempty"`  // report plain end-of-run observations (scenario demonstrations)
 	Count   bool            `json:"count,omitempty"`    // report the database commands issued per exchange event (base scenarios of the systematic placement)
 }
